@@ -346,6 +346,7 @@ type node struct {
 	inc     uint64 // TimestampIncrement
 	tpb     time.Duration
 	maxTpb  time.Duration
+	maxTpbAt func(h uint32) time.Duration // when set: the maximum block time the application reports for height h
 	epoch   int64 // virtual clock origin (ns)
 	lastVerified []uint64
 	rejectVerify map[string]bool // kinds of Verify* callbacks that reject (probes)
@@ -618,7 +619,14 @@ func newNode(id int, vals []dbft.PublicKey, amev int64, w *bufio.Writer, pre ...
 	}
 	if n.dyn {
 		opts = append(opts,
-			dbft.WithMaxTimePerBlock[H](func() time.Duration { n.logf("MAXTPB %d", int64(n.maxTpb)); return n.maxTpb }),
+			dbft.WithMaxTimePerBlock[H](func() time.Duration {
+				m := n.maxTpb
+				if n.maxTpbAt != nil {
+					m = n.maxTpbAt(n.height + 1)
+				}
+				n.logf("MAXTPB %d", int64(m))
+				return m
+			}),
 			dbft.WithSubscribeForTxs[H](func() { n.logf("SUB"); n.subs++; n.mon.event(n, "SUB") }))
 	}
 	var err error
